@@ -12,6 +12,9 @@ import (
 	"sync"
 )
 
+// workRoot: scratch directory of this run for solver input files.
+var workRoot = os.TempDir()
+
 func main() {
 	prop := flag.String("prop", "", "property id (C01..C19)")
 	tier := flag.String("tier", "", "quick | thorough")
@@ -46,6 +49,7 @@ func main() {
 		run.Out = *out
 	}
 	os.RemoveAll(filepath.Join(run.Out, "work", *prop))
+	workRoot = filepath.Join(run.Out, "work", *prop)
 	ld, err := Load(*repo, *verif, []string{"./..."})
 	if err != nil {
 		fmt.Println("ENGINE: cannot load the working tree:", err)
